@@ -417,7 +417,11 @@ pub proof fn lemma_le32_roundtrip(v: u32, rest: Seq<u8>)
     ensures le32(enc_le32(v) + rest) == v, enc_le32(v).len() == 4,
 {
     let s = enc_le32(v) + rest;
-    assert(s[0] == (v % 256) as u8 && s[1] == ((v / 0x100) % 256) as u8 && s[2] == ((v / 0x1_0000) % 256) as u8 && s[3] == ((v / 0x100_0000) % 256) as u8);
+    let b0: u32 = v % 256; let b1: u32 = (v / 0x100) % 256; let b2: u32 = (v / 0x1_0000) % 256; let b3: u32 = (v / 0x100_0000) % 256;
+    assert(b0 < 256 && b1 < 256 && b2 < 256 && b3 < 256 && b3 * 0x100_0000 + b2 * 0x1_0000 + b1 * 0x100 + b0 == v) by (bit_vector)
+        requires b0 == v % 256, b1 == (v / 0x100) % 256, b2 == (v / 0x1_0000) % 256, b3 == (v / 0x100_0000) % 256;
+    assert(s[0] == b0 as u8 && s[1] == b1 as u8 && s[2] == b2 as u8 && s[3] == b3 as u8);
+    assert((b0 as u8) as u32 == b0 && (b1 as u8) as u32 == b1 && (b2 as u8) as u32 == b2 && (b3 as u8) as u32 == b3);
 }
 
 pub proof fn lemma_xz_rt_block(e: Seq<u8>, data: Seq<u8>, rest: Seq<u8>)
